@@ -33,6 +33,12 @@ mod verif_cex_cursor {
             return Err(format!("{}: full cursor scan yields {} entries (last {:?}); the transaction's own view holds {} (last {:?})", ctx, got.len(),
                 got.last().map(|e| String::from_utf8_lossy(&e.0).to_string()), want.len(), want.last().map(|e| String::from_utf8_lossy(&e.0).to_string())));
         }
+        {
+            // the pair-only view: every entry here is a key/value pair, so it must equal the scan
+            let kv: Vec<(Vec<u8>, Vec<u8>)> = b.kv_pairs().map(|kv| (kv.key().to_vec(), kv.value().to_vec())).collect();
+            if kv != want { return Err(format!("{}: kv_pairs() yields {} pairs, the view holds {}", ctx, kv.len(), want.len())); }
+            if b.buckets().count() != 0 { return Err(format!("{}: buckets() yields entries although the bucket holds only key/value pairs", ctx)); }
+        }
         for p in probes {
             // point lookup
             let g = b.get_kv(p).map(|kv| kv.value().to_vec());
